@@ -3,6 +3,7 @@ package main
 // rules_async.go: C04 (conservation), C05 (stop/flush/descriptors), C06 (order and overflow policy).
 
 import (
+	"os"
 	"fmt"
 	"go/constant"
 	"go/token"
@@ -526,16 +527,50 @@ func checkC04(c *Ctx, r *Report) {
 func (c *Ctx) checkWorkerItems(r *Report, ro *Roles, a *asyncInfo, rule string) {
 	w := a.Worker
 	key := rule + ":" + fname(w)
-	var header *ssa.BasicBlock
+	// the worker loop: the innermost natural loop around the receive(s) from the buffer (a `for v := range ch` loop
+	// receives in its own header; a `for { select { case v = <-ch: … } }` loop receives somewhere in its body)
+	var recvBlocks []*ssa.BasicBlock
 	for _, b := range w.Blocks {
 		for _, in := range b.Instrs {
-			if u, ok := in.(*ssa.UnOp); ok && u.Op == token.ARROW && chanFieldOf(u.X) == a.Buf {
+			switch x := in.(type) {
+			case *ssa.UnOp:
+				if x.Op == token.ARROW && chanFieldOf(x.X) == a.Buf {
+					recvBlocks = append(recvBlocks, b)
+				}
+			case *ssa.Select:
+				for _, st := range x.States {
+					if st.Dir == types.RecvOnly && chanFieldOf(st.Chan) == a.Buf {
+						recvBlocks = append(recvBlocks, b)
+					}
+				}
+			}
+		}
+	}
+	var header *ssa.BasicBlock
+	if len(recvBlocks) > 0 {
+		for _, b := range w.Blocks {
+			isHeader := false
+			for _, p := range b.Preds {
+				if b == p || b.Dominates(p) {
+					isHeader = true
+				}
+			}
+			if !isHeader {
+				continue
+			}
+			all := true
+			for _, rb := range recvBlocks {
+				if !(b == rb || b.Dominates(rb)) || !blockInLoop(rb, b) {
+					all = false
+				}
+			}
+			if all && (header == nil || header.Dominates(b)) {
 				header = b
 			}
 		}
 	}
 	if header == nil {
-		r.Undecided(key, c.pos(w.Pos()), "worker loop header (receive from the buffer) not found")
+		r.Undecided(key, c.pos(w.Pos()), "worker loop (a loop around the receive from the buffer) not found")
 		return
 	}
 	refAppend, refWrite := c.declaredMethod(ro.AppenderRef, "Append"), c.declaredMethod(ro.AppenderRef, "Write")
@@ -585,9 +620,57 @@ func (c *Ctx) checkWorkerItems(r *Report, ro *Roles, a *asyncInfo, rule string) 
 		}
 		return nil
 	}
+	// a worker that receives in a select: the iteration takes an item only when the buffer's case is chosen; other
+	// cases (a ticker, a default) are idle iterations
+	ts.OnSelect = func(s *TSCtx, sel *ssa.Select, chosen int) []string {
+		bufState := -1
+		for i, st := range sel.States {
+			if st.Dir == types.RecvOnly && chanFieldOf(st.Chan) == a.Buf {
+				bufState = i
+			}
+		}
+		if bufState < 0 {
+			return nil
+		}
+		if chosen == bufState {
+			return []string{s.A + "RECV;"}
+		}
+		return []string{s.A + "IDLE;"}
+	}
+	recvOK := func(v ssa.Value) (isOK bool, negated bool) {
+		if u, ok := v.(*ssa.UnOp); ok && u.Op == token.NOT {
+			v, negated = u.X, true
+		}
+		ex, ok := v.(*ssa.Extract)
+		if !ok || ex.Index != 1 {
+			return false, false
+		}
+		switch t := ex.Tuple.(type) {
+		case *ssa.Select:
+			return true, negated
+		case *ssa.UnOp:
+			return t.Op == token.ARROW && t.CommaOk && chanFieldOf(t.X) == a.Buf, negated
+		}
+		return false, false
+	}
 	ts.OnBranch = func(s *TSCtx, iff *ssa.If, taken bool) (string, bool) {
 		na := s.A
 		ch := false
+		if bo, ok := iff.Cond.(*ssa.BinOp); ok {
+			for _, o := range []ssa.Value{bo.X, bo.Y} {
+				if ex, ok := o.(*ssa.Extract); ok && ex.Index == 0 {
+					if _, isSel := ex.Tuple.(*ssa.Select); isSel {
+						return na, false // dispatch on the chosen select case: decided by OnSelect
+					}
+				}
+			}
+		}
+		if isOK, neg := recvOK(iff.Cond); isOK && iff.Block() != header {
+			if taken != neg { // the channel delivered a value
+				return na, false
+			}
+			return na + "EXIT(closed);", true
+		}
 		if iff.Block() == header {
 			// ok / !ok of the receive
 			if taken {
@@ -634,6 +717,11 @@ func (c *Ctx) checkWorkerItems(r *Report, ro *Roles, a *asyncInfo, rule string) 
 			exits[na] = true
 			na, ch = na+"AFTER;", true
 		}
+		if succ == header && iff.Block() != w.Blocks[0] {
+			// a conditional back edge (`if … { … }` as the last statement of the loop body): the iteration ends here
+			records[na] = true
+			return "", true
+		}
 		return na, ch
 	}
 	ts.OnJump = func(s *TSCtx, from, to *ssa.BasicBlock) (string, bool) {
@@ -652,9 +740,28 @@ func (c *Ctx) checkWorkerItems(r *Report, ro *Roles, a *asyncInfo, rule string) 
 	}
 	outs := ts.Run(w, "", nil)
 	r.Count("typestate_states", ts.States)
+	if os.Getenv("VCHECK_DEBUG") != "" {
+		for rec := range records {
+			fmt.Fprintln(os.Stderr, "DEBUG worker record:", rec)
+		}
+		for e := range exits {
+			fmt.Fprintln(os.Stderr, "DEBUG worker exit:", e)
+		}
+		for _, o := range outs {
+			fmt.Fprintln(os.Stderr, "DEBUG worker out:", o.Kind, o.A)
+		}
+		fmt.Fprintln(os.Stderr, "DEBUG header block:", header.Index, header.Comment, ts.Truncated)
+	}
 	var bad []string
 	for rec := range records {
 		nF := strings.Count(rec, "F(")
+		if strings.Contains(rec, "IDLE;") && !strings.Contains(rec, "RECV;") {
+			// an iteration that took nothing from the queue delivers and releases nothing
+			if nF != 0 || strings.Contains(rec, "PUT;") {
+				bad = append(bad, "an iteration that received no item performs a fan-out or releases an event: "+rec)
+			}
+			continue
+		}
 		switch {
 		case strings.Contains(rec, "=true;") && strings.Contains(rec, "marker(") && markerTrue(rec):
 			bad = append(bad, "the stop marker continues the loop: "+rec)
@@ -725,7 +832,7 @@ func (c *Ctx) checkWorkerItems(r *Report, ro *Roles, a *asyncInfo, rule string) 
 		if len(exits) == 0 {
 			// range loop exits only through !ok
 			for _, o := range outs {
-				if !strings.Contains(o.A, "EXIT(closed)") && !strings.Contains(o.A, "AFTER") {
+				if !strings.Contains(o.A, "EXIT(closed)") && !strings.Contains(o.A, "AFTER") && !markerTrue(o.A) {
 					badE = append(badE, "worker returns without leaving the loop through marker/close: "+o.A)
 				}
 			}
@@ -742,6 +849,45 @@ func (c *Ctx) checkWorkerItems(r *Report, ro *Roles, a *asyncInfo, rule string) 
 			}
 		}
 	}
+}
+
+// workerExitsOnClose: every receive of the worker from the buffer observes whether the channel is closed.
+func (c *Ctx) workerExitsOnClose(a *asyncInfo) bool {
+	found, all := false, true
+	for f := range c.reach(a.Worker) {
+		if c.reach(a.Append)[f] {
+			continue
+		}
+		eachInstr(f, func(in ssa.Instruction) {
+			switch x := in.(type) {
+			case *ssa.UnOp:
+				if x.Op == token.ARROW && chanFieldOf(x.X) == a.Buf {
+					found = true
+					if !x.CommaOk {
+						all = false
+					}
+				}
+			case *ssa.Select:
+				for _, st := range x.States {
+					if st.Dir == types.RecvOnly && chanFieldOf(st.Chan) == a.Buf {
+						found = true
+						used := false
+						if refs := x.Referrers(); refs != nil {
+							for _, rr := range *refs {
+								if ex, ok := rr.(*ssa.Extract); ok && ex.Index == 1 && ex.Referrers() != nil && len(*ex.Referrers()) > 0 {
+									used = true
+								}
+							}
+						}
+						if !used {
+							all = false
+						}
+					}
+				}
+			}
+		})
+	}
+	return found && all
 }
 
 func markerTrue(rec string) bool {
@@ -914,8 +1060,9 @@ func checkC06(c *Ctx, r *Report) {
 	var bad []string
 	nWorker, nProd := 0, 0
 	for _, s := range recvs {
+		inWorker := s.fn == a.Worker || (a.Worker != nil && c.reach(a.Worker)[s.fn] && !c.reach(a.Append)[s.fn])
 		switch {
-		case s.fn == a.Worker && s.kind == "recv":
+		case inWorker: // `for v := range buf`, `v := <-buf` or a select case in the worker (or an unexported helper only it runs)
 			nWorker++
 		case recvNamed(s.fn) == a.T && s.kind == "select-recv":
 			nProd++
@@ -1272,6 +1419,7 @@ func (c *Ctx) checkStopSignal(r *Report, a *asyncInfo) {
 	outs := ts.Run(a.Stop, "", nil)
 	r.Count("typestate_states", ts.States)
 	var bad []string
+	closeAsSignal := false
 	for _, o := range outs {
 		if o.Kind != "return" {
 			bad = append(bad, "Stop can panic")
@@ -1286,8 +1434,17 @@ func (c *Ctx) checkStopSignal(r *Report, a *asyncInfo) {
 		case j < i:
 			bad = append(bad, "Stop waits before signalling")
 		}
-		if strings.Contains(o.A, "SKIP(default)") {
-			bad = append(bad, "the stop signal is sent non-blockingly: with a full buffer it is subject to the overflow policy (dropped under Discard, so Stop never returns; evicting accepted items under DiscardOldest)")
+		if k := strings.LastIndex(o.A, "SKIP(default)"); k >= 0 {
+			// a non-blocking attempt that failed is fine when the same path then signals for certain (close of the
+			// queue, a blocking send) before it waits
+			rest := o.A[k:]
+			si, wi := strings.Index(rest, "SIG("), strings.Index(rest, "WAIT(")
+			if si < 0 || (wi >= 0 && wi < si) {
+				bad = append(bad, "the stop signal is sent non-blockingly: with a full buffer it is subject to the overflow policy (dropped under Discard, so Stop never returns; evicting accepted items under DiscardOldest)")
+			}
+		}
+		if ci := strings.Index(o.A, "SIG(close)"); ci >= 0 && j >= 0 && ci < j && !closeAsSignal {
+			closeAsSignal = true
 		}
 		if strings.Contains(o.A, "DROP(recv)") {
 			bad = append(bad, "Stop removes accepted items from the queue")
@@ -1304,10 +1461,12 @@ func (c *Ctx) checkStopSignal(r *Report, a *asyncInfo) {
 		}
 	})
 	eachInstr(a.Worker, func(in ssa.Instruction) {
-		if call, ok := in.(*ssa.Call); ok {
-			if b, ok := call.Call.Value.(*ssa.Builtin); ok && b.Name() == "close" {
-				if fv := chanFieldOf(call.Call.Args[0]); fv != nil && fv.Name() == waitF {
-					waitOK = true
+		if call, ok := in.(ssa.CallInstruction); ok { // a plain or a deferred close
+			if _, isGo := in.(*ssa.Go); !isGo {
+				if b, ok := call.Common().Value.(*ssa.Builtin); ok && b.Name() == "close" {
+					if fv := chanFieldOf(call.Common().Args[0]); fv != nil && fv.Name() == waitF {
+						waitOK = true
+					}
 				}
 			}
 		}
@@ -1317,6 +1476,9 @@ func (c *Ctx) checkStopSignal(r *Report, a *asyncInfo) {
 			}
 		}
 	})
+	if closeAsSignal && !c.workerExitsOnClose(a) {
+		bad = append(bad, "a path of Stop closes the queue and then waits for the worker, but the worker's receive has no closed-channel test (no range loop, no `v, ok := <-ch`): it keeps receiving zero values from the closed channel and never signals completion, so Stop never returns")
+	}
 	if waitF != "" && !waitOK {
 		bad = append(bad, "Stop waits on "+waitF+", which the worker never closes or sends on")
 	}
